@@ -40,6 +40,23 @@ func fixedCases() [][]hx.T {
 		{c("OConnect", 1), c("OBackNew", 1, 1), c("OBackNew", 2, 1), c("OBackSet", 2, 5, vint(9)), c("OBackPush", 2),
 			c("OBackScript", 1, []any{c("ASet", 4, vint(1)), "APush", "AQuery", c("ASet", 5, vint(2)), "APush", "AQuery", c("ASet", 6, vint(3))}),
 			c("OBackDump", 1), c("OBackPush", 1), c("OFrontDump", 1), c("ORemove", 1), c("OBackScript", 1, []any{c("ASet", 6, vint(4)), "APush", "AQuery"}), c("OBackDump", 1)},
+		// the closing window: login-like script kicks, binds, sets the routing key, pushes, queries
+		{c("OConnect", 1), c("OConnect", 2), c("OBackNew", 1, 1), c("OBackNew", 2, 2), c("OFrontSet", 1, 4, vint(3)),
+			c("OBackScript", 1, []any{"AKick", c("ASet", 0, vstr(7)), c("ASet", 3, vstr(2)), "APush", "AQuery", c("ASet", 5, vint(1)), "APush"}),
+			c("OBackGet", 1, 0), c("OBackDump", 1), c("OFrontDump", 1), c("OFrontDump", 2), c("OBackScript", 1, []any{"AKick", c("ASet", 6, vint(1)), "APush", "AQuery"}),
+			c("OBackScript", 2, []any{c("ASet", 0, vstr(6)), "APush", "AKick", "AQuery"}), c("OForward", 2)},
+		// handlers that answer first and keep their session, interleaved on the same back-end
+		{c("OConnect", 1), c("OConnect", 2), c("OFrontSet", 2, 0, vstr(6)), c("OForwardKeep", 1, 1), c("OForwardKeep", 2, 2), c("OBackGet", 1, 0), c("OBackGet", 2, 0),
+			c("OBackSet", 1, 0, vstr(7)), c("OBackSet", 1, 4, vint(1)), c("OBackPush", 1), c("OForwardKeep", 2, 3), c("OForwardKeep", 1, 2), c("OBackQuery", 2), c("OBackDump", 1), c("OBackDump", 2), c("OBackDump", 3),
+			c("OFrontDump", 1), c("OFrontDump", 2), c("ORemove", 1), c("OBackScript", 3, []any{c("ASet", 5, vint(2)), "APush", "AQuery"}), c("OFrontDump", 2)},
+		// a write whose value equals the writer's stale view of the key, after somebody else wrote it:
+		// unbind through a back-end-created session; queried view; id the request arrived with
+		{c("OConnect", 1), c("OFrontSet", 1, 0, vstr(7)), c("OBackNew", 1, 1), c("OBackSet", 1, 0, vstr(9)), c("OBackSet", 1, 4, vint(1)), c("OBackPush", 1),
+			c("OFrontDump", 1), c("OFrontSet", 1, 3, vstr(1)), c("OForward", 1)},
+		{c("OConnect", 1), c("OFrontSet", 1, 4, vstr(5)), c("OBackNew", 1, 1), c("OBackNew", 2, 1), c("OBackQuery", 1), c("OBackSet", 2, 4, vstr(6)), c("OBackPush", 2),
+			c("OBackSet", 1, 4, vstr(5)), c("OBackSet", 1, 5, vstr(6)), c("OBackPush", 1), c("OFrontDump", 1)},
+		{c("OConnect", 1), c("OFrontSet", 1, 0, vstr(7)), c("OForwardKeep", 1, 1), c("OBackNew", 2, 1), c("OBackSet", 2, 0, vstr(8)), c("OBackPush", 2),
+			c("OBackSet", 1, 0, vstr(7)), c("OBackPush", 1), c("OFrontGet", 1, 0), c("OForwardKeep", 1, 3)},
 		// value shapes
 		{c("OConnect", 1), c("OFrontSet", 1, 4, vint(9007199254740991)), c("OFrontSet", 1, 5, vlist(vint(1), vstr(5), vlist(vbool(true), "VNull"))),
 			c("OFrontSet", 1, 6, "VNull"), c("OFrontGet", 1, 4), c("OFrontGet", 1, 5), c("OFrontDump", 1), c("OBackNew", 1, 1), c("OBackQuery", 1),
@@ -83,7 +100,11 @@ func gen(cfg *hx.Config, i int) ([]hx.T, []string) {
 		}
 	}
 	// (key, value) respecting the guard on reserved keys: _ID only strings, _NetId/_ServerId never written
-	kv := func() (int64, any) {
+	// values already written to a key by anybody in this case: a third of the writes repeat one of
+	// them (a write whose value equals somebody's stale view of the key must still count; "" for
+	// _ID is the view of a back-end-created session, i.e. an unbind)
+	seen := map[int64][]any{0: {vstr(9)}}
+	kv0 := func() (int64, any) {
 		switch p := r.Intn(10); {
 		case p < 2:
 			tags["bind"] = true
@@ -94,6 +115,15 @@ func gen(cfg *hx.Config, i int) ([]hx.T, []string) {
 			return 3, v
 		}
 		return int64(4 + r.Intn(3)), val(0)
+	}
+	kv := func() (int64, any) {
+		k, v := kv0()
+		if len(seen[k]) > 0 && r.Intn(3) == 0 {
+			v = hx.Pick(r, seen[k])
+			tags["rewrite-seen-value"] = true
+		}
+		seen[k] = append(seen[k], v)
+		return k, v
 	}
 	var ops []hx.T
 	ops = append(ops, hx.C("OConnect", 1))
@@ -113,9 +143,13 @@ func gen(cfg *hx.Config, i int) ([]hx.T, []string) {
 			ops = append(ops, hx.C("OFrontGet", sid, int64(r.Intn(7))))
 		case p < 31:
 			ops = append(ops, hx.C("OFrontDump", sid))
-		case p < 41:
+		case p < 38:
 			tags["forward"] = true
 			ops = append(ops, hx.C("OForward", sid))
+		case p < 41:
+			// a handler that answers first and keeps its session: later ops use it as handle b
+			tags["forward-keep"] = true
+			ops = append(ops, hx.C("OForwardKeep", sid, b))
 		case p < 50:
 			s2 := sid
 			if r.Intn(10) == 0 {
@@ -150,6 +184,11 @@ func gen(cfg *hx.Config, i int) ([]hx.T, []string) {
 				default:
 					tags["script-query"] = true
 					acts = append(acts, "AQuery")
+				}
+				if r.Intn(14) == 0 {
+					// the closing window: the rest of the script is handled between Close and RemoveSession
+					tags["script-kick"] = true
+					acts = append(acts, "AKick")
 				}
 			}
 			ops = append(ops, hx.C("OBackScript", b, acts))
